@@ -29,10 +29,18 @@ where
     } else {
         Box::new(f)
     };
-    let reader = ReaderBuilder::new()
+    let mut csv_reader = ReaderBuilder::new()
         .has_headers(has_headers)
         .trim(csv::Trim::Fields)
-        .from_reader(r)
+        .from_reader(r);
+    if has_headers {
+        // read the header row here: into_deserialize discards an error met while
+        // reading it and then yields no rows at all, as if the file were empty
+        csv_reader
+            .headers()
+            .map_err(|e| io::Error::new(io::ErrorKind::Other, e))?;
+    }
+    let reader = csv_reader
         .into_deserialize::<T>()
         .inspect(move |r| {
             if let Ok(t) = r {
